@@ -100,6 +100,9 @@ func (p *Parser) FromString(data string) error {
 
 func (p *Parser) parseString(data string) error {
 	scanner := bufio.NewScanner(strings.NewReader(data))
+	// bufio.Scanner refuses lines longer than its buffer (64 KiB by default) and
+	// then just stops: allow a line to be as long as the whole input.
+	scanner.Buffer(make([]byte, 0, 4096), len(data)+1)
 	var linebuffer strings.Builder
 	inBackticks := false
 	for scanner.Scan() {
@@ -139,6 +142,9 @@ func (p *Parser) parseString(data string) error {
 			}
 			linebuffer.Reset()
 		}
+	}
+	if err := scanner.Err(); err != nil {
+		return fmt.Errorf("failed to read directives: %w", err)
 	}
 	if inBackticks {
 		return errors.New("backticks left open")
